@@ -722,6 +722,10 @@ func c20throttleGraph(c *c20ctx, trailing bool) {
 		})
 		for mm.viol == "" {
 			// quiescent and a kept trigger can never turn into a permission?
+			if !trailing && mm.obligation && vrt.PendingTimers() == 0 && vrt.LiveThreads() == 2 && vrt.ThreadParked(consumer) {
+				mm.viol, mm.det = "Throttle/graph/leading-trigger-lost", fmt.Sprintf("at time %d a trigger that arrived more than a period after the last permission (at %d) is outstanding and the consumer is parked in Next: it waits for ever although a permission is due", now(), mm.lastPerm)
+				break
+			}
 			if trailing && mm.obligation && vrt.PendingTimers() == 0 && vrt.LiveThreads() == 2 && vrt.ThreadParked(consumer) {
 				mm.viol, mm.det = "Throttle/graph/trailing-trigger-lost", fmt.Sprintf("at time %d a trigger is outstanding (last permission at %d), no timer is armed and the consumer is parked in Next: the trigger can never become a permission", now(), mm.lastPerm)
 				break
@@ -729,9 +733,10 @@ func c20throttleGraph(c *c20ctx, trailing bool) {
 			switch vrt.Choose(3) {
 			case 0:
 				mm.trace = append(mm.trace, fmt.Sprintf("Call@%d", now()))
-				if trailing {
+				if trailing || now()-mm.lastPerm > 5 {
 					// set at the invocation: a permission that is handed out while the Call is still
-					// running (its own broadcast) already answers it
+					// running (its own broadcast) already answers it. Without the trailing edge only a
+					// trigger that arrives more than a period after the last permission is owed one.
 					mm.obligation = true
 				}
 				th.Call()
